@@ -91,13 +91,13 @@ func (l *LocalKMS) importECDSAKey(privKey *ecdsa.PrivateKey, kt kms.KeyType,
 			HashType: commonpb.HashType_SHA256,
 			Curve:    secp256k1pb.BitcoinCurveType_SECP256K1,
 			Encoding: secp256k1pb.Secp256K1SignatureEncoding_Bitcoin_DER,
-		})
+		}, opts...)
 	case kms.ECDSASecp256k1IEEEP1363:
 		return l.importSecp256K1Key(privKey, &secp256k1pb.Secp256K1Params{
 			HashType: commonpb.HashType_SHA256,
 			Curve:    secp256k1pb.BitcoinCurveType_SECP256K1,
 			Encoding: secp256k1pb.Secp256K1SignatureEncoding_Bitcoin_IEEE_P1363,
-		})
+		}, opts...)
 	default:
 		return "", nil, fmt.Errorf("import private EC key failed: invalid ECDSA key type")
 	}
